@@ -35,18 +35,21 @@ ENGINES = {
                          "sendRuntimeTrackedPkt=return verifDnsSendPkt(log, data, from, to, recordDownload)"]},
         ],
         "harness": ["harness/control/dns_engine_test.go", "harness/control/dns_world_test.go", "harness/control/dns_rules_test.go",
-                    "harness/control/dns_track_test.go", "harness/control/dns_oracle_test.go", "harness/control/dns_c08_test.go", "harness/control/dns_c10_test.go", "harness/control/dns_c07_test.go", "harness/control/dns_c18_test.go"],
+                    "harness/control/dns_track_test.go", "harness/control/dns_oracle_test.go", "harness/control/dns_c08_test.go", "harness/control/dns_c10_test.go", "harness/control/dns_c07_test.go", "harness/control/dns_c18_test.go", "harness/control/dns_tcp_test.go"],
         "keepgoing": False,
         "quick_secs": 40, "thorough_secs": 600,
         # reach probes; a run serves one property, so only the probes of the checked property can be hit:
         # ./check lists the others as "never hit" warnings (informational).
         "probes_by_prop": {
             "C09": ["dns.udp-socket-reused", "dns.tcp-conn-pipelined", "dns.udp-to-tcp-fallback", "dns.late-copy-delivered",
-                    "dns.reply-without-own-upstream-query"],
+                    "dns.reply-without-own-upstream-query", "dns.tcp-fast-path-reply", "dns.tcp-fast-path-pipelined-queries", "dns.large-answer"],
             "C08": ["dns.fresh-cache-hit", "dns.stale-served", "dns.background-refresh-query", "dns.lru-eviction"],
-            "C07": ["dns.c07-reask", "dns.c07-reask-bound-hit", "dns.c07-request-rejected", "dns.c07-response-rejected"],
-            "C10": ["dns.c10-quiescent-comparison", "dns.c10-async-update"],
-            "C18": ["dns.c18-probe-started", "dns.c18-known-by-dns", "dns.c18-verified-by-probe", "dns.c18-unknown-name"],
+            "C07": ["dns.c07-reask", "dns.c07-reask-bound-hit", "dns.c07-request-rejected", "dns.c07-response-rejected",
+                    "dns.c07-negative-answer", "dns.c07-reask-upstream-fails"],
+            "C10": ["dns.c10-quiescent-comparison", "dns.c10-async-update", "dns.c10-reload-takes-time",
+                    "dns.c10-async-update-overtaken-by-replacement-or-eviction", "dns.c10-comparison-after-failed-delete-was-repaired"],
+            "C18": ["dns.c18-probe-started", "dns.c18-known-by-dns", "dns.c18-verified-by-probe", "dns.c18-unknown-name",
+                    "dns.c18-connection-after-failed-probe"],
         },
         "probes": [],
     },
